@@ -364,11 +364,18 @@ def _run(case, out, w):
             n_msgs += 1
             body = "pinned-%d-%s" % (n_msgs, c03.marker(n_msgs, "b"))
             ent = TextMessageProtocolEntity(body, to=to)
+            toggle = op[3] if kind == "send" and len(op) > 3 and isinstance(op[3], dict) else None
+            if toggle is not None:
+                # the sender's application switches the option while the answers to the sender's key requests of this exchange are
+                # still on their way: what counts is what the option says when a presented identity is judged
+                w.option[s] = w.autotrust[s] = bool(toggle["value"])
             verdicts = {r: (accepts(s, r), accepts(r, s)) for r in recipients}
             refusing_sender = s if any(not v[0] for v in verdicts.values()) else None
             if not clients[s].connected():
                 clients[s].connect()
                 A.settle(server, clients)
+            if toggle is not None:
+                server.key_fetch_policy = ["held"] * 8
             err = clients[s].send(ent)
             if err is not None:
                 out.fail("send", "send:raises:%s" % type(err).__name__, {"step": step, "error": repr(err)[:300]})
@@ -376,6 +383,16 @@ def _run(case, out, w):
             if not A.settle(server, clients):
                 out.fail("drain", "queues_do_not_drain", {"step": step, "left": len(server.outq)})
                 return out
+            if toggle is not None:
+                clients[s].props = w.props_of(s)
+                clients[s].set_prop(PROP_IDENTITY_AUTOTRUST, bool(toggle["value"]))
+                server.key_fetch_policy = []
+                held = server.release_key_results()
+                out.label("autotrust_switched_%s_with_%s" % ("on" if toggle["value"] else "off",
+                                                           "key_answers_on_their_way" if any(j == s for j, a in held) else "nothing_on_its_way"))
+                if not A.settle(server, clients):
+                    out.fail("drain", "queues_do_not_drain", {"step": step, "left": len(server.outq)})
+                    return out
             scope = "group:" if kind == "gsend" else ""
             for r in recipients:
                 s_accepts, r_accepts = verdicts[r]
@@ -567,7 +584,8 @@ def shrink_candidates(case):
 
 def script_strategy():
     sel = st.integers(0, 5)
-    send = st.tuples(st.just("send"), sel, sel).map(list)
+    send = st.one_of(st.tuples(st.just("send"), sel, sel).map(list), st.tuples(st.just("send"), sel, sel).map(list),
+                     st.tuples(st.just("send"), sel, sel, st.booleans().map(lambda v: {"value": v})).map(list))
     gsend = st.tuples(st.just("gsend"), sel).map(list)
     bsend = st.tuples(st.just("bsend"), sel, sel).map(list)
     op = st.one_of(send, send, send, gsend, gsend, bsend, st.tuples(st.just("set_autotrust"), sel, st.booleans()).map(list), st.tuples(st.just("reinstall"), sel).map(list), st.tuples(st.just("restart"), sel).map(list),
@@ -607,6 +625,16 @@ def _enum_basic():
                    ["restart", 1], ["send", 0, 0]]}
 
 
+def _enum_toggle_in_flight():
+    """the sender switches automatic trust while the bundle that presents the contact's new identity is on its way"""
+    for start, value in ((True, False), (False, True), (None, True), (True, True), (False, False)):
+        yield {"sub": "history", "accounts": 2, "autotrust": [start, False], "seed": 7,
+               "ops": [["send", 0, 0], ["send", 1, 0], ["reinstall", 1], ["send", 0, 0, {"value": value}], ["send", 0, 0], ["restart", 0],
+                       ["send", 0, 0], ["send", 1, 0]]}
+        yield {"sub": "history", "accounts": 2, "autotrust": [start, False], "seed": 8,
+               "ops": [["send", 0, 0, {"value": value}], ["send", 1, 0], ["reinstall", 1], ["send", 0, 0, {"value": not value}], ["send", 0, 0]]}
+
+
 def _enum_store_fault():
     for action in ("bundle", "pkmsg"):
         for autotrust in (False, True):
@@ -621,8 +649,10 @@ def plan(tier):
                       st.sampled_from(["bundle", "pkmsg"]), st.booleans(), st.booleans(), st.integers(0, 8), st.integers(0, 3))
     return {
         "shards": 16,
-        "enumerations": [("basic_histories", _enum_basic), ("store_fault_sweep", _enum_store_fault)],
+        "enumerations": [("basic_histories", _enum_basic), ("store_fault_sweep", _enum_store_fault),
+                         ("autotrust_switched_with_key_answers_on_their_way", _enum_toggle_in_flight)],
         "strategies": [("histories", script_strategy(), 25 if quick else 700), ("store_fault", fault, 40 if quick else 600)],
         "shrink": "ddmin",
         "budget_s": 200 if quick else 2400,
     }
+RULE = RULE + (" A send may carry a switch of the sender's automatic-trust option that takes effect while the answers to the sender's key requests are still on their way (held by the server double); the option as it stands when the identity is judged decides.")
